@@ -1,9 +1,250 @@
-//! C02 — placeholder, filled in below.
+//! C02 — every completed version keeps restoring to its own snapshot, across histories.
+//! C13 rides on the same engine (`run_history` with `Mode::Conformance`).
+
+use std::collections::BTreeMap;
+
+use crate::conform::{ConformOpts, check_conformance};
 use crate::report::{Acc, CheckInfo, Found, Violation};
-use crate::scenario::Scenario;
-use super::{CheckDef, Tier};
+use crate::rng::{self, Rng};
+use crate::scenario::{
+    HistoryCfg, Scenario, Step, StepResult, exec_step, expect_restore_equals, gen_history, outcome_disc, outcome_text,
+};
+use crate::sim::{Fault, Outcome};
+use crate::world::{RestoreSpec, VState, World};
+
+use super::c01::{probes_from_stats, probes_from_world};
+use super::{CheckDef, Tier, founds};
+
 pub fn def() -> CheckDef {
-    CheckDef { info: CheckInfo { id: "C02", level: "exploration", rule: "", assumptions: &[], real: super::REAL_COMPONENTS, stub: super::STUB_COMPONENTS }, runs: |_| 1, run, execute, expected_probes: &[] }
+    CheckDef {
+        info: CheckInfo {
+            id: "C02",
+            level: "exploration",
+            rule: "one seeded run = one history of 3-8 (thorough: up to 20) steps over {edit burst, backup(options), backup killed before storage operation k, delete(subset, dry-run or real, break-lock), gc}; after every archive-changing step every version the model holds as complete is restored and compared with the snapshot taken when it was made, and 'latest' must be the newest of them. Non-trivial: at least two complete versions with different snapshots coexisted; distinct = distinct (sequence of store state hashes).",
+            assumptions: &[
+                "content edits always come with a new mtime or a new size (the property's precondition)",
+                "an interrupted version is one whose band directory exists without a tail; nothing is claimed about restoring it here",
+                "deletes refused by Conserve leave the model unchanged; the model follows the store for which band directories exist",
+            ],
+            real: super::REAL_COMPONENTS,
+            stub: super::STUB_COMPONENTS,
+        },
+        runs: |t| if t.thorough() { 20_000 } else { 600 },
+        run,
+        execute: |sc, acc| run_history(sc, acc, Mode::Restores),
+        expected_probes: &[
+            "interrupted_backup",
+            "resumed_after_interrupt",
+            "delete_real",
+            "delete_refused_incomplete_newest",
+            "basis_entry_reused",
+            "dedup_hit",
+            "versions_coexisting_ge3",
+            "headless_newest_band",
+            "latest_checked_with_incomplete_newest",
+        ],
+    }
 }
-fn run(_seed: u64, _tier: Tier, _acc: &mut Acc) -> Vec<Found> { vec![] }
-pub fn execute(_sc: &Scenario, _acc: &mut Acc) -> Result<Vec<Violation>, String> { Ok(vec![]) }
+
+#[derive(Clone, Copy, PartialEq, Eq)]
+pub enum Mode {
+    Restores,
+    Conformance,
+}
+
+pub fn generate(seed: u64, tier: Tier, check: &str) -> Scenario {
+    let mut r = Rng::new(seed);
+    let hc = HistoryCfg {
+        min_steps: 3,
+        max_steps: if tier.thorough() { 20 } else { 8 },
+        interrupts: true,
+        crash_empty: check == "C13",
+        deletes: true,
+        thorough: tier.thorough(),
+        small_blocks: r.chance(1, 3),
+    };
+    gen_history(&mut r, check, seed, &hc)
+}
+
+fn run(seed: u64, tier: Tier, acc: &mut Acc) -> Vec<Found> {
+    let sc = generate(seed, tier, "C02");
+    match run_history(&sc, acc, Mode::Restores) {
+        Ok(vs) => {
+            acc.sample(sc.compact());
+            founds(&sc, vs)
+        }
+        Err(e) => {
+            acc.harness_errors.push(format!("C02 seed {seed}: {e}"));
+            vec![]
+        }
+    }
+}
+
+fn push_new(out: &mut Vec<Violation>, vs: Vec<Violation>) {
+    for v in vs {
+        if !out.iter().any(|o| o.signature() == v.signature()) {
+            out.push(v);
+        }
+    }
+}
+
+pub fn run_history(sc: &Scenario, acc: &mut Acc, mode: Mode) -> Result<Vec<Violation>, String> {
+    let prop = if mode == Mode::Restores { "C02" } else { "C13" };
+    let mut out: Vec<Violation> = Vec::new();
+    let mut w = World::new(sc.env.clone(), sc.root_meta);
+    acc.runs += 1;
+    *acc.backends.entry("mem".into()).or_default() += 1;
+    let mut state_seq: Vec<u64> = Vec::new();
+    let mut distinct_complete_snaps = false;
+    let allow_empty = sc.steps.iter().any(|s| match s {
+        Step::Backup { plan, .. } | Step::Delete { plan, .. } => plan.at.values().any(|f| *f == Fault::CrashEmpty),
+        _ => false,
+    });
+    let mut had_interrupt = false;
+    for (si, step) in sc.steps.iter().enumerate() {
+        let lock_before = w.gc_lock_present();
+        let res = exec_step(&mut w, step, acc, false)?;
+        let mut archive_changed = true;
+        match (&res, step) {
+            (StepResult::Edited(_), _) => archive_changed = false,
+            (StepResult::Backup(b), Step::Backup { opts, plan }) => {
+                probes_from_world(&w, acc, opts);
+                if let Outcome::Done(Ok(s)) = &b.outcome {
+                    probes_from_stats(s, acc);
+                    if had_interrupt {
+                        acc.hit("resumed_after_interrupt");
+                    }
+                }
+                if matches!(b.outcome, Outcome::Crashed) {
+                    acc.hit("interrupted_backup");
+                    had_interrupt = true;
+                }
+                if plan.is_faultless() && mode == Mode::Restores {
+                    match &b.outcome {
+                        Outcome::Done(Ok(_)) => {}
+                        Outcome::Done(Err(e)) if lock_before && e.variant == "GarbageCollectionLockHeld" => {
+                            acc.hit("backup_refused_lock_held");
+                        }
+                        other => out.push(Violation::new(
+                            prop,
+                            "backup_completes",
+                            outcome_disc(other),
+                            format!("step {si}: fault-free backup: {}", outcome_text(other)),
+                        )),
+                    }
+                }
+            }
+            (StepResult::Delete(d), Step::Delete { dry_run, .. }) => {
+                match &d.outcome {
+                    Outcome::Done(Ok(_)) => acc.hit(if *dry_run { "delete_dry_run" } else { "delete_real" }),
+                    Outcome::Done(Err(e)) if e.variant == "DeleteWithIncompleteBackup" => acc.hit("delete_refused_incomplete_newest"),
+                    Outcome::Done(Err(e)) if e.variant == "GarbageCollectionLockHeld" => acc.hit("delete_refused_lock_held"),
+                    Outcome::Done(Err(_)) => acc.hit("delete_failed_other"),
+                    Outcome::Panicked(p) => out.push(Violation::new(
+                        prop,
+                        "delete_no_panic",
+                        crate::report::panic_disc(p),
+                        format!("step {si}: delete panicked at {}:{}: {}", p.file, p.line, p.msg),
+                    )),
+                    _ => {}
+                }
+            }
+            _ => {}
+        }
+        if !archive_changed {
+            continue;
+        }
+        acc.evaluations += 1;
+        let st = w.store();
+        let h = st.state_hash();
+        acc.states.insert(h);
+        state_seq.push(h);
+        let view = crate::format::decode(&st);
+        if let Some((_, newest)) = view.bands.iter().next_back() {
+            if !newest.has_head() {
+                acc.hit("headless_newest_band");
+            }
+        }
+        match mode {
+            Mode::Conformance => {
+                let mut snaps = BTreeMap::new();
+                for (id, v) in &w.versions {
+                    if v.state != VState::Deleted {
+                        snaps.insert(*id, v.snap.clone());
+                    }
+                }
+                push_new(
+                    &mut out,
+                    check_conformance(
+                        prop,
+                        &view,
+                        &ConformOpts {
+                            allow_empty_leftovers: allow_empty,
+                            snaps,
+                        },
+                    ),
+                );
+            }
+            Mode::Restores => {
+                let complete = w.complete_versions();
+                if complete.len() >= 3 {
+                    acc.hit("versions_coexisting_ge3");
+                }
+                if complete.len() >= 2 {
+                    let a = &w.versions[&complete[0]].snap;
+                    if complete[1..].iter().any(|b| w.versions[b].snap != *a) {
+                        distinct_complete_snaps = true;
+                    }
+                }
+                for b in &complete {
+                    let v = w.versions[b].clone();
+                    let vs = expect_restore_equals(&mut w, acc, prop, Some(*b), &v.snap, v.opts.owner, &format!("after step {si}: restore of b{b:04}"));
+                    push_new(&mut out, vs);
+                }
+                // "latest complete" must select the newest of them
+                let newest_is_incomplete = w.versions.iter().next_back().map(|(_, v)| v.state == VState::Interrupted).unwrap_or(false);
+                if newest_is_incomplete {
+                    acc.hit("latest_checked_with_incomplete_newest");
+                }
+                match complete.last() {
+                    Some(b) => {
+                        let v = w.versions[b].clone();
+                        let vs = expect_restore_equals(&mut w, acc, prop, None, &v.snap, v.opts.owner, &format!("after step {si}: restore of latest (expected b{b:04})"));
+                        for mut x in vs {
+                            x.oracle = format!("latest_{}", x.oracle);
+                            if !out.iter().any(|o| o.signature() == x.signature()) {
+                                out.push(x);
+                            }
+                        }
+                    }
+                    None => {
+                        let r = w.restore(&RestoreSpec::default());
+                        acc.calls += 1;
+                        match &r.outcome {
+                            // The property only says what 'latest' selects when complete
+                            // versions exist; with none, any refusal is acceptable.
+                            Outcome::Done(Err(_)) => {}
+                            other => push_new(
+                                &mut out,
+                                vec![Violation::new(
+                                    prop,
+                                    "latest_with_no_complete_version",
+                                    outcome_disc(other),
+                                    format!("after step {si}: no complete version exists, restore of latest gave: {}", outcome_text(other)),
+                                )],
+                            ),
+                        }
+                    }
+                }
+            }
+        }
+    }
+    let nontrivial = match mode {
+        Mode::Restores => distinct_complete_snaps,
+        Mode::Conformance => state_seq.len() >= 2,
+    };
+    if nontrivial {
+        acc.nontrivial.insert(rng::mix(&state_seq));
+    }
+    Ok(out)
+}
